@@ -269,6 +269,31 @@ fn gc_jobs(tier: Tier, jobs: &mut Vec<Job>) {
             format!("gc|{name}"),
             Box::new(move |rec: &mut Rec| {
                 // combining rules vs reference
+                // serde round trip of the chemical record itself: same groups, same bond graph, same heterosegmented model
+                {
+                    let txt = serde_json::to_string(&cr).unwrap();
+                    match serde_json::from_str::<ChemicalRecord>(&txt) {
+                        Ok(cr2) => {
+                            let norm = |c: &ChemicalRecord| {
+                                let mut b: Vec<[usize; 2]> = c.bonds.iter().map(|b| if b[0] <= b[1] { *b } else { [b[1], b[0]] }).collect();
+                                b.sort();
+                                b
+                            };
+                            rec.require("serde_round_trip", "chemical_record|segments", cr2.segments == cr.segments, || format!("segments {:?} re-read as {:?}", cr.segments, cr2.segments));
+                            rec.require("serde_round_trip", "chemical_record|bonds", norm(&cr2) == norm(&cr), || format!("bond graph {:?} re-read as {:?} (serialised: {txt})", norm(&cr), norm(&cr2)));
+                            if let (Ok(p1), Ok(p2)) = (GcPcSaftEosParameters::from_segments(vec![cr.clone()], hetero.to_vec(), None), GcPcSaftEosParameters::from_segments(vec![cr2], hetero.to_vec(), None)) {
+                                let (e1, e2) = (Arc::new(ResidualModel::GcPcSaft(GcPcSaft::new(Arc::new(p1)))), Arc::new(ResidualModel::GcPcSaft(GcPcSaft::new(Arc::new(p2)))));
+                                let x: Array1<f64> = arr1(&[1.0]);
+                                let rho = e1.max_density(Some(&Moles::from_reduced(x.clone()))).unwrap().to_reduced();
+                                let (a, b) = (props(&e1, 400.0, 1.0 / (rho * 0.5), &x), props(&e2, 400.0, 1.0 / (rho * 0.5), &x));
+                                // (two separately built gc parameter sets sum their groups in HashMap order: agreement to 1e-10, not bitwise)
+                                let worst = a.iter().zip(b.iter()).map(|(u, v)| if u.1.is_nan() && v.1.is_nan() { 0.0 } else { (u.1 - v.1).abs() / (1e-10 * u.1.abs().max(u.2.abs()).max(1e-300)) }).fold(0.0, f64::max);
+                                rec.check("serde_round_trip", "chemical_record|behaviour", worst, true, || "heterosegmented model built from the re-read chemical record differs".into());
+                            }
+                        }
+                        Err(e) => rec.require("serde_round_trip", "chemical_record|parse", false, || format!("re-reading the serialised chemical record fails: {e}: {txt}")),
+                    }
+                }
                 // reference decision: the table must have every group and at most one group occurrence may be polar / associating
                 let complete = cr.segments.iter().all(|g| homo.iter().any(|s| &s.identifier == g));
                 let polar = cr.segments.iter().filter(|g| homo.iter().find(|s| &&s.identifier == g).is_some_and(|s| s.model_record.mu.is_some() || s.model_record.q.is_some() || s.model_record.association_record.as_ref().is_some_and(|a| a.na + a.nb + a.nc > 0.0))).count();
